@@ -235,6 +235,45 @@ func embedRun(args []string) int {
 			}
 		}
 	}
+	// counts whose product with a plausible record size wraps around in 32-bit arithmetic, in files large enough for the
+	// wrapped product (a size check done in uint32 lets them through)
+	for _, kind := range []string{"words", "cmds"} {
+		for _, unit := range []uint64{1, 2, 4, 8, 100, 101, 200, 400, 401, 402, 403, 404, 405, 406, 408, 410, 412, 800, 804} {
+			for _, pow := range []uint64{1 << 32, 1 << 31} {
+				count := (pow + unit - 1) / unit
+				if count >= 1<<32 {
+					continue
+				}
+				f := embedFile{Kind: kind, Header: true, Claimed: 1000000, Present: 170, Tail: "none", Dim: 100}
+				tr++
+				p := filepath.Join(tmpDir(), fmt.Sprintf("e%d.bin", tr))
+				materialiseEmbed(p, f, uint32(count))
+				st, _ := os.Stat(p)
+				ev := &embedEv{Op: "load", Tr: tr, File: fmt.Sprintf("%s header=true claimed=%d (wraps with record size %d) present=170 tail=none dim=100", kind, count, unit),
+					SizeKB: int(st.Size()/1024) + 1, Complete: false}
+				cmd := exec.Command(self, "embed-child", kind, p)
+				var ob, eb bytes.Buffer
+				cmd.Stdout, cmd.Stderr = &ob, &eb
+				err := cmd.Run()
+				var res struct {
+					Outcome string `json:"outcome"`
+					AllocKB int    `json:"alloc_kb"`
+				}
+				if err != nil || json.Unmarshal(bytes.TrimSpace(ob.Bytes()), &res) != nil {
+					ev.Outcome = "crash"
+					ev.Note = lastLines(eb.String(), 2)
+					if strings.Contains(eb.String(), "out of memory") || strings.Contains(eb.String(), "cannot allocate") {
+						ev.Outcome = "crash-out-of-memory"
+					}
+					ev.AllocKB = 1 << 30
+				} else {
+					ev.Outcome, ev.AllocKB = res.Outcome, res.AllocKB
+				}
+				os.Remove(p)
+				w.emit(ev.fill())
+			}
+		}
+	}
 	// ---- semantic stage: paired searches with / without an attached index
 	in2 := newInterner()
 	qs := []string{"frobnicate widget", "widget number", "delete item", "frobnicte", "item question scattered", "qqqqzzzz", "frobnicate"}
@@ -292,29 +331,37 @@ func embedRun(args []string) int {
 				db.VerifAttachEmbeddings(idx)
 				ev.Attached = true
 			}
-			with := db.SearchUniversal(q, full)
-			ev.WithAns = in2.answerID(c, toHits(with))
-			ev.With, ev.Without = docsOf(c, with), docsOf(c, without)
-			ev.Order = cmpSeq(toHits(with))
 			base := map[int]float64{}
 			for _, h := range without {
 				base[c.idx[h.Command]] = h.Score
 			}
-			for _, h := range with {
-				d := c.idx[h.Command]
-				b0, ok := base[d]
-				if !ok {
-					continue
+			// the same search three times over on the same index: the bound holds for every one of them
+			var with []database.SearchResult
+			for rep := 0; rep < 3; rep++ {
+				with = db.SearchUniversal(q, full)
+				for _, h := range with {
+					d := c.idx[h.Command]
+					b0, ok := base[d]
+					if !ok {
+						continue
+					}
+					cmp := 0
+					if h.Score > b0 {
+						cmp = 1
+					} else if h.Score < b0 {
+						cmp = -1
+					}
+					within := h.Score <= b0*(1+constants.SemanticAlpha)*(1+1e-12)+1e-300
+					if rep == 0 || !within || cmp < 0 {
+						ev.Cmp = append(ev.Cmp, []int{d, cmp, b2i(within)})
+					}
 				}
-				cmp := 0
-				if h.Score > b0 {
-					cmp = 1
-				} else if h.Score < b0 {
-					cmp = -1
+				if rep == 0 {
+					ev.WithAns = in2.answerID(c, toHits(with))
 				}
-				within := h.Score <= b0*(1+constants.SemanticAlpha)*(1+1e-12)+1e-300
-				ev.Cmp = append(ev.Cmp, []int{d, cmp, b2i(within)})
 			}
+			ev.With, ev.Without = docsOf(c, with), docsOf(c, without)
+			ev.Order = cmpSeq(toHits(with))
 		}()
 		w.emit(ev.fill())
 	}
